@@ -139,9 +139,9 @@ def cases(tier, rng):
     for d in D:
         heavy = d >= 255 and not big          # the extracted model costs ~3 us per coefficient step: thin out the quick tier
         # quick tier, heavy degrees: (d, dividend degree) -> operation
-        HEAVY = {(255, 4 * 255 + 1): "reduce", (256, 4 * 256): "reduce", (256, 4 * 256 + 1): "reduce", (256, 4 * 256 - 1): "divide",
+        HEAVY = {(255, 4 * 255 + 1): "reduce", (256, 4 * 256): "reduce", (256, 4 * 256 - 1): "divide",
                  (257, 4 * 257 + 1): "fast_reduce", (257, 4 * 257): "reduce", (511, 4 * 511 + 1): "reduce", (512, 4 * 512): "reduce",
-                 (512, 4 * 512 + 1): "reduce", (513, 4 * 513): "reduce"}
+                 (513, 4 * 513 - 1): "divide"}
         for da in (4 * d - 1, 4 * d, 4 * d + 1):
             a, m = poly(rng, "b", da), poly(rng, "b", d)
             if heavy:
@@ -155,13 +155,15 @@ def cases(tier, rng):
         mm = bl(rpoly(rng, d, monic=True))
         for da in (d - 1, d, d + 1, 2 * d):
             binop("grid-near", "divide", "b", poly(rng, "b", da), mm)
-        binop("grid-near", "rem", "b", poly(rng, "b", 2 * d + 1), mm)
-        binop("grid-near", "div", "b", poly(rng, "b", 2 * d + 1), poly(rng, "b", d))
+        if d < 511 or big:
+            binop("grid-near", "rem", "b", poly(rng, "b", 2 * d + 1), mm)
+            binop("grid-near", "div", "b", poly(rng, "b", 2 * d + 1), poly(rng, "b", d))
         if d <= 2 or d == 128 or (big and d <= 257):
             a, m = poly(rng, "x", 4 * d + 1, d > 2), poly(rng, "x", d)
-            binop("grid-4d-x", "divide", "x", a, m)
             binop("grid-4d-x", "reduce", "x", a, m)
-            binop("grid-4d-x", "reduce", "x", poly(rng, "x", 4 * d, d > 2), m)
+            if d <= 2 or big:
+                binop("grid-4d-x", "divide", "x", a, m)
+                binop("grid-4d-x", "reduce", "x", poly(rng, "x", 4 * d, d > 2), m)
     # 2. all three stages of fast_reduce: small moduli (structured stage runs when 4*deg < remaining degree), long numerators
     for d in (1, 2, 3, 10, 63, 64, 65):
         for da in (4 * d + 1, 256, 300, 1000) + ((255, 257, 5000) if big else ()):
@@ -172,7 +174,8 @@ def cases(tier, rng):
             binop("three-stages", "fast_reduce", "b", a, m)
             if d in (1, 3, 64):
                 binop("three-stages", "reduce_ntt", "b", a, m)
-        binop("three-stages", "reduce", "x", poly(rng, "x", 300), poly(rng, "x", d))
+        if d in (1, 3, 64) or big:
+            binop("three-stages", "reduce", "x", poly(rng, "x", 300), poly(rng, "x", d))
     for d in (1, 2, 127, 128, 129, 200):
         add("shift-factor", "shift_factor b %s" % grp(poly(rng, "b", d)))
         binop("shift-factor", "reduce_ntt", "b", poly(rng, "b", 3 * npo2(max(256, 2 * d)) + 5), poly(rng, "b", d))
@@ -203,7 +206,7 @@ def cases(tier, rng):
             if z > d:
                 continue
             m = bl([0] * z + rpoly(rng, d - z))
-            for op in ("divide", "reduce", "fast_reduce"):
+            for op in ("divide", "reduce", "fast_reduce") if (d < 257 or big) else ("reduce",):
                 binop("divisor-root0", op, "b", poly(rng, "b", 4 * d + 1), m)
             binop("divisor-root0", "divide", "b", bl([0] * z + rpoly(rng, 3 * d)), m)
     binop("divisor-root0", "divide", "x", poly(rng, "x", 9), [[0, 0, 0]] + poly(rng, "x", 2))
@@ -211,9 +214,9 @@ def cases(tier, rng):
     def clean(k, dv, q, ka=0, kb=0):
         binop(k, "clean_divide", "b", bl(pmul(dv, q)), bl(dv), ka, kb)
 
-    DQ = {511: (0, 88, 513), 512: (0, 1, 511, 512, 1536), 513: (0, 510, 511), 600: (1, 423, 424)}
+    DQ = {511: (0, 88, 513), 512: (0, 1, 511, 512), 513: (0, 510), 600: (1, 424)}
     for d in (1, 2, 100, 511, 512, 513, 600):
-        dqs = (0, 1, 5, d) if d < 511 else DQ[d] + ((88, 1024, 3 * d) if big else ())
+        dqs = (0, 1, 5, d) if d < 511 else DQ[d] + ((88, 1024, 3 * d) if big else ((3 * d,) if d == 512 else ()))
         for dq in dqs:
             clean("clean-divide", rpoly(rng, d), rpoly(rng, dq, sparse=dq > 100))
         clean("clean-divide", rpoly(rng, d, monic=True), rpoly(rng, 3), 2, 1)
@@ -257,7 +260,9 @@ def cases(tier, rng):
     for f in ("b", "x"):
         for n in precs:
             for sd in (0, 1, 2, 3):
-                if f == "x" and not big and ((n == 1000 and sd >= 2) or (n >= 255 and sd >= 2)):
+                if f == "b" and not big and n == 1000 and sd == 3:
+                    continue
+                if f == "x" and not big and ((n == 1000 and sd >= 1) or (n >= 255 and sd >= 2)):
                     continue
                 nop("fpsi", "fpsi_newton", f, n, poly(rng, f, sd))
             if n <= 257 and f == "b":
